@@ -383,7 +383,8 @@ async fn term(a: &[String]) -> Vec<String> {
     let code = arg(a, 3).parse::<u64>().unwrap_or(0);
     let reason = unhex_lenient(arg(a, 4));
     let when = arg(a, 5).to_string();
-    const STYLES: [&str; 15] = [
+    const STYLES: [&str; 16] = [
+        "ctrl_more_settings",
         "raw_fin",
         "raw_reset",
         "capsule",
@@ -509,6 +510,16 @@ async fn term(a: &[String]) -> Vec<String> {
         "quic_close" => match quinn::VarInt::from_u64(code) {
             Ok(c) => peer.conn.close(c, &reason),
             Err(_) => errs.push("bad_code".into()),
+        },
+        "ctrl_more_settings" => match peer.ctrl.as_mut() {
+            None => errs.push("raw:no_control_stream".into()),
+            Some(s) => {
+                // SETTINGS again, and once more a little later (each in its own delivery)
+                for _ in 0..2 {
+                    let _ = raw::write_pieces(s, &[wire::std_settings_frame()], 0).await;
+                    tokio::time::sleep(ms(150)).await;
+                }
+            }
         },
         "ctrl_reset" | "ctrl_fin" => match peer.ctrl.as_mut() {
             None => errs.push("raw:no_control_stream".into()),
@@ -1892,6 +1903,12 @@ fn gen_c04(thorough: bool, rng: &mut Rng, emit: &mut dyn FnMut(&str, Vec<String>
                 }
             }
         }
+        // QUIC application close codes that coincide with registry values (H3_NO_ERROR above all):
+        // reported as they are, like any other code
+        for (i, code) in [0x100u64, 0x101, 0x33, 0x10c, 0x3994_bd84, 0x170d_7b68, 0x2843].into_iter().enumerate() {
+            k += 1;
+            term(emit, RTS[k % 2], side, "quic_close", code, b"bye", whens[i % 3]);
+        }
         // arbitrary CONNECT-stream content, then FIN / RESET: frames that are skipped rather than
         // buffered (unknown types, over-long reserved types) cut on and around the skip buffer's
         // chunk boundaries, complete ignorable frames before a clean end or before a capsule,
@@ -1979,6 +1996,7 @@ fn gen_c09(thorough: bool, rng: &mut Rng, emit: &mut dyn FnMut(&str, Vec<String>
     let styles = [
         "drop_all",
         "local_close",
+        "ctrl_more_settings",
         "ctrl_reset",
         "ctrl_fin",
         "quic_close",
